@@ -103,8 +103,10 @@ def check(col, prog, tier, profile, fixture=None):
         col.violation("H1", "%s|direction" % fk(b), b.loc(), "merge is a min-heap in one branch and a max-heap in the other: heap order is not consistent in one direction")
 
     # ---- H2 (assembly; the same facts C03 T4 checks, restated for heap order)
-    for sb in (R.split_at, R.split_by):
-        Is = util.analyse(sb)
+    for nm_, sb in (("split_at", R.split_at), ("split_by", R.split_by)):
+        Is = R.A(sb)
+        # a skeleton shared by both splits is judged once per public entry, under that entry's name
+        kb_ = fk(R.pub[nm_]) if R.shared_split else fk(sb)
         root = ("param", 1, Is.names.get(1))
         for st in Is.final_states:
             evs = st.event_list()
@@ -127,7 +129,7 @@ def check(col, prog, tier, profile, fixture=None):
             other = [x for x in (ret[2] if ok else ()) if x != root]
             ok = ok and len(other) == 1 and other[0][0] == "proj" and other[0][2] == e.res
             side = "left" if (a0[0] == "load" and c03.child_field_of(a0[2], R) and c03.child_field_of(a0[2], R)[1] == R.LEFT) else "right"
-            key = "%s|%s-going" % (fk(sb), side)
+            key = "%s|%s-going" % (kb_, side)
             if ok:
                 col.ok("H2", sb.loc(e.bb), key, "returns root and a part of its former %s subtree; only recursive results are re-attached" % side)
             else:
@@ -187,7 +189,8 @@ def rule_h5(col, prog, crate, R, dirs, only_crate=False):
     """H5: a store into a node's child link outside the re-attachment of the node's own former subtree needs
     the path's facts to order priority(node) against priority(root of the foreign tree) in merge's direction"""
     fk = util.fkey
-    col.rule("H5", "every child-link store of a foreign tree is guarded by a priority comparison in merge's direction", floor=6)
+    # two link stores per restructuring worker (merge, split_by, split_at; the two splits may share one skeleton)
+    col.rule("H5", "every child-link store of a foreign tree is guarded by a priority comparison in merge's direction", floor=2 * len({R.merge.key, R.split_by.key, R.split_at.key}))
     want = "Ge" if dirs == {"max"} else "Le"
     helper_keys = {h.key for h in R.helpers}
     from ..absint import strip_mem
